@@ -114,6 +114,7 @@ type S struct {
 	awake    int
 	idle     chan struct{}
 	aborting bool
+	runaway  bool
 	fatal    *Fatal
 
 	mutexOwner map[interface{}]*Thread
@@ -123,6 +124,8 @@ type S struct {
 	rendezvous map[interface{}]*Thread // channel -> receiver released for it
 
 	Env Env
+	// UnlockYields: releasing a plain mutex is a scheduling point (RW locks of the small tables are not).
+	UnlockYields bool
 
 	prefix   []int
 	Points   []Point
@@ -172,8 +175,15 @@ func (s *S) Go(name string, f func()) *Thread {
 	return t
 }
 
+// MaxThreads bounds the threads of one execution: code that keeps spawning (a reconnect loop, say) ends the
+// execution with StepLimit instead of exhausting memory.
+const MaxThreads = 400
+
 func (s *S) spawn(name string) *Thread {
 	s.mu.Lock()
+	if len(s.threads) >= MaxThreads {
+		s.runaway = true
+	}
 	t := &Thread{ID: len(s.threads), Name: name, wake: make(chan struct{}, 1)}
 	s.threads = append(s.threads, t)
 	s.awake++
@@ -410,11 +420,27 @@ func (s *S) Lock(m interface{}) {
 
 func (s *S) Unlock(m interface{}) {
 	s.mu.Lock()
-	if !s.aborting {
+	ab := s.aborting
+	if !ab {
 		if s.mutexOwner[m] == nil && s.rwWriter[m] == nil {
 			s.mu.Unlock()
 			panic("sync: unlock of unlocked mutex")
 		}
+		delete(s.mutexOwner, m)
+		delete(s.rwWriter, m)
+	}
+	s.mu.Unlock()
+	// the release itself is a scheduling point: what a thread does right after leaving a critical section
+	// may interleave with another thread entering it
+	if !ab && s.UnlockYields {
+		s.parkAs(s.cur(), op{kind: OpYield, name: "after-unlock"})
+	}
+}
+
+// UnlockNoYield releases without a scheduling point.
+func (s *S) UnlockNoYield(m interface{}) {
+	s.mu.Lock()
+	if !s.aborting {
 		delete(s.mutexOwner, m)
 		delete(s.rwWriter, m)
 	}
@@ -698,7 +724,7 @@ func (s *S) loop() Outcome {
 			return Deadlock // the harness decides whether the blocked set is acceptable
 		}
 		steps++
-		if steps > s.MaxSteps {
+		if steps > s.MaxSteps || s.runaway {
 			s.mu.Unlock()
 			return StepLimit
 		}
